@@ -2,7 +2,7 @@
    machine with frames: the layout facts `prog_ok` for the module image `rel_image p` (every
    function body is where the function table says, the exception table sends the addresses of a
    function to its LABEL; RETHROW), the entry stub (MARK; PUSH_PARAM; GLOBAL_VEC 0; ID_FUNC_ENTRY;
-   CALL … HALT / UNHANDLED_EXCEPTION), and compile_program_correct_F3.  No axioms. *)
+   CALL … HALT / UNHANDLED_EXCEPTION), and compile_program_correct_F (any level: F3, F5).  No axioms. *)
 From Coq Require Import ZArith List Bool Lia.
 From NV Require Import Gen.Opcodes Verifier.Effect Src.Syntax Src.Eval Src.EvalLemmas
   VM.ValueVM3 Src.Compile3 Src.CompileCorrect3Base Src.CompileCorrect3.
@@ -30,26 +30,75 @@ Proof.
   intros bs a j b H. destruct (addrs_from_nth bs a j b H) as (l & r & _ & E). lia.
 Qed.
 
-Lemma hsearch_func_tab : forall (bs : list (list rinstr)) a cur i j b,
-  nth_error bs j = Some b ->
-  (nth j (addrs_from a bs) 0 <= i < nth j (addrs_from a bs) 0 + length b)%nat ->
-  hsearch (func_tab a bs) i cur = (nth j (addrs_from a bs) 0 + length b - 2)%nat.
+Definition lsum (l : list nat) : nat := fold_right Nat.add 0%nat l.
+
+Lemma hsearch_mid : forall pre b h post i cur,
+  (forall e, In e pre -> (fst e <= i)%nat) -> (b <= i)%nat -> (forall e, In e post -> (i < fst e)%nat) ->
+  hsearch (pre ++ (b, h) :: post) i cur = h.
 Proof.
-  induction bs as [|b0 t IH]; intros a cur i j b H Hi; [destruct j; discriminate|].
-  destruct j as [|j]; simpl in H, Hi |- *.
-  - inv H. replace (Nat.leb a i) with true by (symmetry; apply Nat.leb_le; lia).
-    destruct t as [|b1 t']; simpl; [reflexivity|].
-    replace (Nat.leb (a + length b) i) with false by (symmetry; apply Nat.leb_gt; lia). reflexivity.
-  - pose proof (addrs_from_ge t (a + length b0)%nat j b H).
-    replace (Nat.leb a i) with true by (symmetry; apply Nat.leb_le; lia).
-    apply IH; assumption.
+  induction pre as [|[b0 h0] pre IH]; intros b h post i cur Hpre Hb Hpost; simpl.
+  - replace (Nat.leb b i) with true by (symmetry; apply Nat.leb_le; lia).
+    destruct post as [|[b1 h1] post']; simpl; [reflexivity|].
+    replace (Nat.leb b1 i) with false; [reflexivity|]. symmetry. apply Nat.leb_gt.
+    apply (Hpost (b1, h1)). left. reflexivity.
+  - replace (Nat.leb b0 i) with true by (symmetry; apply Nat.leb_le; apply (Hpre (b0, h0)); left; reflexivity).
+    apply IH; auto. intros e He. apply Hpre. right. exact He.
 Qed.
 
-Lemma hsearch_before : forall (bs : list (list rinstr)) a cur i, (i < a)%nat ->
-  hsearch (func_tab a bs) i cur = cur.
+Lemma seg_entries_bounds : forall l a e, In e (seg_entries a l) -> (a <= fst e <= a + lsum l)%nat.
 Proof.
-  intros bs a cur i H. destruct bs as [|b t]; simpl; [reflexivity|].
-  replace (Nat.leb a i) with false by (symmetry; apply Nat.leb_gt; lia). reflexivity.
+  induction l as [|n t IH]; intros a e H; simpl in H; [contradiction|].
+  destruct H as [<- | H]; simpl; [lia|]. apply IH in H. simpl. lia.
+Qed.
+
+Lemma func_tab_ge : forall ls a e, In e (func_tab a ls) -> (a <= fst e)%nat.
+Proof.
+  induction ls as [|l t IH]; intros a e H; simpl in H; [contradiction|].
+  apply in_app_or in H. destruct H as [H | H].
+  - apply seg_entries_bounds in H. lia.
+  - apply IH in H. lia.
+Qed.
+
+Lemma seg_entries_app : forall n1 a n n2,
+  seg_entries a (n1 ++ n :: n2) =
+  seg_entries a n1 ++ (a + lsum n1, a + lsum n1 + n - 1)%nat :: seg_entries (a + lsum n1 + n) n2.
+Proof.
+  induction n1 as [|x t IH]; intros a n n2; simpl.
+  - rewrite !Nat.add_0_r. reflexivity.
+  - rewrite IH. f_equal. unfold lsum. simpl. f_equal. f_equal.
+    + f_equal; lia.
+    + f_equal; lia.
+Qed.
+
+Lemma hsearch_func_tab : forall (ls : list (list nat)) (bs : list (list rinstr)) K a cur prefix l b n1 n n2 i,
+  Forall2 (fun l b => (lsum l + 1 = length b)%nat) ls bs ->
+  nth_error ls K = Some l -> nth_error bs K = Some b -> l = n1 ++ n :: n2 ->
+  (nth K (addrs_from a bs) 0 + lsum n1 <= i < nth K (addrs_from a bs) 0 + lsum n1 + n)%nat ->
+  (forall e, In e prefix -> (fst e <= i)%nat) ->
+  hsearch (prefix ++ func_tab a ls) i cur = (nth K (addrs_from a bs) 0 + lsum n1 + n - 1)%nat.
+Proof.
+  induction ls as [|l0 t IH]; intros bs K a cur prefix l b n1 n n2 i HF Hl Hb El Hi Hpre;
+    [destruct K; discriminate|].
+  inversion HF as [|l0' b0 t' bt Hh Ht]; subst.
+  destruct K as [|K]; simpl in Hl, Hb, Hi |- *.
+  - inv Hl. inv Hb. rewrite seg_entries_app, <- !app_assoc, app_assoc. cbn [app].
+    apply hsearch_mid.
+    + intros e He. apply in_app_or in He. destruct He as [He | He]; [apply Hpre; exact He|].
+      apply seg_entries_bounds in He. lia.
+    + lia.
+    + intros e He. apply in_app_or in He. destruct He as [He | He].
+      * apply seg_entries_bounds in He. lia.
+      * apply func_tab_ge in He. unfold lsum in *. rewrite fold_right_app in He. simpl in He.
+        assert (fold_right Nat.add (n + fold_right Nat.add 0 n2) n1 = fold_right Nat.add 0 n1 + n + fold_right Nat.add 0 n2)%nat.
+        { clear. induction n1; simpl; lia. }
+        lia.
+  - pose proof (addrs_from_ge bt (a + length b0)%nat K b Hb) as Hge.
+    rewrite app_assoc. rewrite <- Hh.
+    replace (a + fold_right Nat.add 0 l0 + 1)%nat with (a + length b0)%nat by (unfold lsum in Hh; lia).
+    rewrite Hh.
+    apply (IH bt K (a + length b0)%nat cur (prefix ++ seg_entries a l0) _ b n1 n n2 i Ht Hl Hb eq_refl Hi).
+    intros e He. apply in_app_or in He. destruct He as [He | He]; [apply Hpre; exact He|].
+    apply seg_entries_bounds in He. lia.
 Qed.
 
 Section Prog.
@@ -87,15 +136,43 @@ Proof.
   rewrite nth_error_map, H. reflexivity.
 Qed.
 
+Lemma lsum_concat : forall (l : list (list rinstr)), lsum (map (@length rinstr) l) = length (concat l).
+Proof. induction l as [|x t IH]; simpl; [reflexivity|]. rewrite app_length. unfold lsum in *. simpl. lia. Qed.
+
+Lemma seglens_user : forall k fd, nth_error (p_funcs p) k = Some fd ->
+  nth_error (seglens p) (nstd + k) = Some (map (@length rinstr) (fsegs FT fd)).
+Proof.
+  intros k fd H. unfold seglens. rewrite nth_error_app2 by (rewrite map_length, std_tab_len; lia).
+  rewrite map_length, std_tab_len. replace (nstd + k - nstd)%nat with k by lia.
+  rewrite nth_error_map, H. reflexivity.
+Qed.
+
+Lemma seglens_bodies : Forall2 (fun l b => (lsum l + 1 = length b)%nat) (seglens p) (bodies p).
+Proof.
+  unfold seglens, bodies. apply Forall2_app.
+  - induction std_tab as [|e t IH]; simpl; constructor; [|exact IH].
+    unfold lsum. simpl. unfold std_body. destruct (fst e) as [|[|?]]; simpl; lia.
+  - generalize (fnames p). intros FT0. induction (p_funcs p) as [|fd t IH]; cbn [map]; constructor; [|exact IH].
+    rewrite lsum_concat. unfold compile_func. rewrite app_length. cbn [length]. reflexivity.
+Qed.
+
 Lemma prog_ok_image : prog_ok X G prog.
 Proof.
   constructor.
   - unfold faddr. apply (body_at 13). reflexivity.
   - intros k fd H. unfold faddr. apply body_at. apply bodies_user. exact H.
-  - intros k fd i H Hi. unfold faddr in *. cbn [X prog_xinfo x_tab x_ftab] in *.
-    unfold exc_table. cbn [hsearch]. unfold ftable in *.
-    apply (hsearch_func_tab (bodies p) (head_len p) _ i (nstd + k) (compile_func FT fd) (bodies_user k fd H)).
-    exact Hi.
+  - intros k fd pre seg post i H Hs Hi. unfold faddr in *. cbn [X prog_xinfo x_tab x_ftab] in *.
+    unfold exc_table, ftable in *.
+    change ((0%nat, (code_entry p + 8)%nat) :: func_tab (head_len p) (seglens p))
+      with ([(0%nat, (code_entry p + 8)%nat)] ++ func_tab (head_len p) (seglens p)).
+    rewrite <- (lsum_concat pre) in *.
+    apply (hsearch_func_tab (seglens p) (bodies p) (nstd + k) (head_len p) 0%nat _
+             (map (@length rinstr) (fsegs FT fd)) (compile_func FT fd)
+             (map (@length rinstr) pre) (length seg) (map (@length rinstr) post) i
+             seglens_bodies (seglens_user k fd H) (bodies_user k fd H)).
+    + cbn [G g_funcs] in Hs. fold FT in Hs. rewrite Hs, map_app. reflexivity.
+    + exact Hi.
+    + intros e [<- | []]. simpl. lia.
 Qed.
 
 End Prog.
@@ -255,12 +332,13 @@ Proof.
     rewrite nth_error_map, H. reflexivity.
 Qed.
 
-(* ---- compile_program_correct_F3 ------------------------------------------------------------ *)
+(* ---- compile_program_correct_F ------------------------------------------------------------ *)
 
 Section Main.
 Variable p : program.
 Variable args : list Z.
-Hypothesis HF3 : prog_in_F3 p = true.
+Variable lv : nat.
+Hypothesis HF3 : prog_in_F lv p = true.
 
 Let X := prog_xinfo p args.
 Let G := {| g_genv := global_env (p_funcs p) 0; g_funcs := p_funcs p |}.
@@ -271,9 +349,9 @@ Let nf := length (p_funcs p).
 Let ce := code_entry p.
 Let glob := repeat 0%nat (nstd + nf).
 
-Lemma funcs_ok3 : forall fd, In fd (g_funcs G) -> func_in_F (g_sigs G) 3 fd = true.
+Lemma funcs_ok3 : forall fd, In fd (g_funcs G) -> func_in_F (g_sigs G) lv fd = true.
 Proof.
-  intros fd H. unfold prog_in_F3, prog_in_F in HF3.
+  intros fd H. unfold prog_in_F in HF3.
   apply andb_true_iff in HF3; destruct HF3 as [H1 _]. apply andb_true_iff in H1; destruct H1 as [H1 _].
   rewrite forallb_forall in H1. exact (H1 fd H).
 Qed.
@@ -281,7 +359,7 @@ Qed.
 Lemma find3 : forall kidx fd, nth_error (g_funcs G) kidx = Some fd ->
   find_func (fd_name fd) (g_funcs G) = Some fd.
 Proof.
-  intros kidx fd H. unfold prog_in_F3, prog_in_F in HF3.
+  intros kidx fd H. unfold prog_in_F in HF3.
   apply andb_true_iff in HF3; destruct HF3 as [H1 _]. apply andb_true_iff in H1; destruct H1 as [_ H2].
   exact (nodup_find (p_funcs p) H2 kidx fd H).
 Qed.
@@ -293,11 +371,15 @@ Qed.
 
 Lemma stub_handler : hsearch (x_tab X) (ce + 5) 0 = (ce + 8)%nat.
 Proof.
-  cbn [X prog_xinfo x_tab]. unfold exc_table. cbn [hsearch]. fold ce.
-  apply hsearch_before. unfold head_len. fold ce. simpl. lia.
+  cbn [X prog_xinfo x_tab]. unfold exc_table. fold ce.
+  apply (hsearch_mid [] 0%nat (ce + 8)%nat (func_tab (head_len p) (seglens p)) (ce + 5)%nat 0%nat).
+  - intros e [].
+  - lia.
+  - intros e He. apply func_tab_ge in He. unfold head_len in He. change (length stub) with 10%nat in He.
+    fold ce in He. lia.
 Qed.
 
-Theorem compile_program_correct_F3 : forall fuel,
+Theorem compile_program_correct_F : forall fuel,
   match run_program fuel p args with
   | OResult v printed => exists k z, run_vm p k args = VRet z printed /\ val_rel v z
   | OUnhandled ex printed => exists k, run_vm p k args = VExc ex printed
@@ -311,7 +393,7 @@ Proof.
                  arrs := []; recs := []; out := [] |}).
   (* the entry function *)
   assert (Hmain : mem_id (p_main p) (map fd_name (p_funcs p)) = true).
-  { unfold prog_in_F3, prog_in_F in HF3. apply andb_true_iff in HF3. tauto. }
+  { unfold prog_in_F in HF3. apply andb_true_iff in HF3. tauto. }
   destruct (mem_find_func _ _ Hmain) as (fd & Hfind).
   destruct (find_func_pos _ _ _ Hfind) as (kidx & Hk & Hlook & Hpos).
   rewrite Hlook. cbn [Nat.add].
@@ -321,7 +403,10 @@ Proof.
   rewrite Hcell.
   destruct (bind_params (fd_params fd) (seq nf n)) as [penv|] eqn:Hb; [|exact I].
   set (genv := global_env (p_funcs p) 0).
-  destruct (eval_items genv fuel penv st1 (fd_body fd) None) as [r st2] eqn:He.
+  change (match eval_items genv fuel penv st1 (fd_body fd) None with
+          | (RExc ex, st2) => handlers genv fuel penv st2 ex (fd_catches fd) (fd_catch_all fd)
+          | r => r end) with (call_body genv fuel penv st1 fd).
+  destruct (call_body genv fuel penv st1 fd) as [r st2] eqn:He.
   (* the VM: the entry stub up to the CALL *)
   pose proof stub_at as Hst. unfold stub in Hst.
   pose proof (CompileCorrect3Base.code_at_head _ _ _ _ Hst) as S0.
@@ -346,7 +431,7 @@ Proof.
   set (astk := rev (seq 0 n)).
   set (h0 := rev (map wrap32 args)).
   set (h' := (h0 ++ [0]) ++ [Z.of_nat (main_addr p)]).
-  set (F := {| f_ret := retL; f_fp := 0; f_below := glob |}).
+  set (F := {| f_ret := retL; f_fp := 0; f_below := glob; f_exc := None |}).
   set (frc := {| r_fp := 0; r_exc := None; r_frames := [F] |}).
   assert (Hmaddr : main_addr p = faddr X (nstd + kidx)).
   { unfold main_addr, faddr, fnames. rewrite Hpos. cbn [X prog_xinfo x_ftab].
@@ -367,7 +452,7 @@ Proof.
     unfold h'. rewrite nth_error_app2, Nat.sub_diag by lia. reflexivity. }
   (* the simulation of the body *)
   pose proof (prog_ok_image p args) as Hpo. fold X G prog in Hpo.
-  pose proof (CompileCorrect3.body_all X G 3 funcs_ok3 find3 fuel) as Hbody.
+  pose proof (CompileCorrect3.body_all X G lv funcs_ok3 find3 fuel) as Hbody.
   assert (HMS : MS (entry_morph (p_funcs p) n) st1 h').
   { unfold h', h0. rewrite <- app_assoc. apply entry_MS. }
   assert (HF2 : Forall2 (fun c a => nth_error (entry_morph (p_funcs p) n) c = Some (MA a)) (seq nf n) astk).
@@ -395,15 +480,7 @@ Proof.
       rewrite (step_halt X prog (S retL) a glob h2 o2 _ S7). cbn [v_heap v_out mkst]. rewrite Hhz, Ho2. reflexivity. }
     destruct (run_star X prog _ _ (star_trans X prog _ _ _ Hboot Hst2) 2%nat _ Hfin) as (k' & Hk'); [discriminate|].
     exists k', z. split; [exact Hk' | exact Hv].
-  - destruct Hrun as (-> & h2 & t & Hst2).
-    unfold prog_in_F3, prog_in_F in HF3.
-    pose proof (funcs_ok3 fd (nth_error_In _ _ Hk)) as Hfok. unfold func_in_F in Hfok.
-    apply andb_true_iff in Hfok; destruct Hfok as [_ Hcat].
-    assert (Hc12 : fd_catches fd = [] /\ fd_catch_all fd = None).
-    { destruct (fd_catches fd); [destruct (fd_catch_all fd); [discriminate | auto] | discriminate]. }
-    destruct Hc12 as [C1 C2]. rewrite C1, C2.
-    destruct fuel as [|fk]; [rewrite eval_items_O in He; discriminate|].
-    rewrite handlers_nil.
+  - destruct Hrun as (-> & h2 & t & m2 & Hst2 & _ & _).
     assert (Epred : Nat.pred retL = (ce + 5)%nat) by (unfold retL; cbn [Nat.pred]; lia).
     rewrite Epred, stub_handler in Hst2.
     assert (Hfin : run X prog 2 (mkst (ce + 8) (t :: glob) h2 (out st2)
